@@ -92,12 +92,26 @@ def _ll_wrap(c, s=0.06):
     return -0.5 * t
 
 
+def _ll_funnel(c):
+    """funnel: narrow in x1 at small x0, wide at large x0, higher peak in the narrow part - bounds of
+    successive likelihood levels are NOT nested (exact arithmetic only: rational scale)"""
+    x0 = c[0]
+    s = 0.002 + 0.3 * x0 * x0 * x0 * x0
+    d0 = (x0 - 0.5) / 0.2
+    d1 = (c[1] - 0.5) / s
+    t = -0.5 * d0 * d0 - 0.5 * d1 * d1 + 0.01 / s
+    for ci in c[2:]:
+        e = (ci - 0.5) / 0.2
+        t = t - 0.5 * e * e
+    return t
+
+
 def _ll_const(c):
     return 0.0 * c[0]
 
 
 LIKES = dict(gauss=_ll_gauss, two=_ll_two, ring=_ll_ring, half=_ll_half, plateau=_ll_plateau,
-             wrap=_ll_wrap, const=_ll_const)
+             wrap=_ll_wrap, const=_ll_const, funnel=_ll_funnel)
 
 BLOB_KINDS = ('none', 'float', 'int', 'two', 'array', 'struct', 'f32')
 
@@ -290,7 +304,7 @@ DEFAULTS = dict(
     nn=dict(hidden_layer_sizes=(6,), max_iter=60), periodic=None, blob='none', vectorized=False,
     prior='identity', pool_l=0, pool_s=0, discard=False, seed=1, f_live=0.05, n_shell=1,
     n_eff=150, file=True, enlarge_per_dim=1.1, n_points_min=6, n_like_new_bound=None,
-    split_threshold=100, verbose=False)
+    split_threshold=100, verbose=False, want=None)
 
 
 class Scenario(dict):
@@ -365,6 +379,33 @@ class Scenario(dict):
 
     def pure(self, x):
         return pure(self['like'], self['blob'], x)
+
+    def resolve(self):
+        """coverage-directed choice of the seed: for scenarios that `want` a rare event on their default
+        path (an empty shell removed at the end of exploration) the seeds seed, seed+1, ... are tried
+        until the event occurs (deterministic; at most 10 tries, else Inconclusive)"""
+        if not self['want']:
+            return self
+        on = LOG['on']
+        LOG['on'] = False
+        try:
+            base = self['seed']
+            for k in range(10):
+                self['seed'] = base + k
+                s = self.build()
+                mx = 0
+                while True:
+                    done = s.run(**self.run_args(), n_like_max=s.n_like + 1)
+                    mx = max(mx, len(s.bounds))
+                    if done or s.explored:
+                        break
+                if self['want'] == 'removed' and len(s.bounds) < mx:
+                    self['want'] = None
+                    return self
+            raise core.Inconclusive('no seed with event {} for scenario {}'.format(
+                self['want'], self.name))
+        finally:
+            LOG['on'] = on
 
     def describe(self):
         d = {k: v for k, v in self.items() if DEFAULTS.get(k, None) != v or k in ('like', 'seed')}
